@@ -24,6 +24,7 @@ import NexoVerif.Lemmas.NetSinks
 import NexoVerif.Lemmas.TaskThm
 import NexoVerif.Model.NetRun
 import NexoVerif.Lemmas.PoolLive
+import NexoVerif.Lemmas.InjThm
 import NexoVerif.Extracted
 
 namespace NexoVerif.Net
@@ -226,3 +227,45 @@ theorem tasks_left_in_the_injector_are_seen {n : Nat} {s : St} (hr : Reach n pub
   · exact absurd h hm
 
 end NexoVerif.Pool
+
+/-! ## The injector queue (M-INJ)
+
+M-POOL treats the injector as a counter that is tested for zero in one step.  M-INJ is `injector.rs` itself: the
+mutex-protected vector of buckets and the advisory `is_empty` flag that the workers (and the last worker before it
+declares the pool idle) read without the lock.  Every operation runs under the mutex, so the statements below hold
+whenever no thread is inside an operation. -/
+namespace NexoVerif.Inj
+
+/-- the injector as created, with bucket capacity `cap ≥ 1` -/
+def fresh (cap : Nat) : St := { cap := cap }
+
+theorem fresh_inv (cap : Nat) (hc : 0 < cap) : Inv (fresh cap) :=
+  ⟨rfl, by intro b hb; simp [fresh] at hb, hc⟩
+
+/-- **injector_flag_is_exact** — after any sequence of `insert_task` / `push_bucket` (non-empty buckets of at most
+`cap` tasks) / `pop_bucket`: the flag read by `is_empty()` says "empty" exactly when no task is held, `pop_bucket`
+answers `None` exactly then, and no bucket in the queue is empty or above the capacity. -/
+theorem injector_flag_is_exact (cap : Nat) (hc : 0 < cap) (ops : List Op) (ho : ∀ o ∈ ops, o.ok cap) :
+    ((run (fresh cap) ops).flag = true ↔ held (run (fresh cap) ops) = []) ∧
+    ((popBucket (run (fresh cap) ops)).2 = none ↔ held (run (fresh cap) ops) = []) ∧
+    (∀ b ∈ (run (fresh cap) ops).inner, 0 < b.length ∧ b.length ≤ cap) := by
+  have hi : Inv (run (fresh cap) ops) := run_inv (fresh cap) ops (fresh_inv cap hc) ho
+  have hcap : (run (fresh cap) ops).cap = cap := run_cap (fresh cap) ops
+  refine ⟨flag_iff_held_nil _ hi, pop_none_iff_empty _ hi, ?_⟩
+  intro b hb
+  have := hi.sizes b hb
+  rw [hcap] at this; exact this
+
+/-- **injector_neither_loses_nor_duplicates_a_task** — the tasks put in by a sequence of operations are, as a multiset,
+the tasks handed out by its `pop_bucket` calls plus the tasks still held. -/
+theorem injector_neither_loses_nor_duplicates_a_task (cap : Nat) (hc : 0 < cap) (ops : List Op)
+    (ho : ∀ o ∈ ops, o.ok cap) :
+    List.Perm (inps ops) (outs (fresh cap) ops ++ held (run (fresh cap) ops)) := by
+  have := run_conserves (fresh cap) ops (fresh_inv cap hc) ho
+  simpa [held, fresh] using this
+
+-- non-vacuity: capacity 3, four single tasks (the full bucket is swapped for a new one), one pop
+example : (run (fresh 3) [.insert 1, .insert 2, .insert 3, .insert 4, .pop]).inner = [[4]] ∧
+    out (run (fresh 3) [.insert 1, .insert 2, .insert 3, .insert 4]) .pop = [1, 2, 3] := by decide
+
+end NexoVerif.Inj
